@@ -15,6 +15,7 @@ fn main() {
         "layout" => pure::layout(),
         "decode" => pure::decode(),
         "load" => pure::load(),
+        "doclayout" => pure::doclayout(),
         "total" => total::parent(&args[2], args[3].parse().unwrap()),
         "total-child" => total::child(),
         "run" => run::run(&args[2], &args[3]),
